@@ -298,9 +298,8 @@ func evalRender(r *explore.Run, rep *report.R, scenario string, x xrdSpec) {
 			break
 		}
 	}
-	if len(f.list) > 0 {
-		sig, msg := f.first()
-		r.Failf(sig, "%s", msg)
+	if f.raise(r, scenario) {
+		return
 	}
 	nt := ""
 	if x.anyCollision(composite) || x.anyCollision(claim) || collision != "" {
@@ -430,9 +429,8 @@ func createBody(r *explore.Run, rep *report.R) {
 		f.add("webhook/create/valid-xrd/rejected", "CREATE of XRD variant %s was denied: %s", variants[i].name, v.Message)
 	}
 	r.Logf("allowed=%v message=%q dry-run writes=%v", v.Allowed, v.Message, cl.dryWrites)
-	if len(f.list) > 0 {
-		sig, msg := f.first()
-		r.Failf(sig, "%s", msg)
+	if f.raise(r, "admission/create") {
+		return
 	}
 	nt := ""
 	if collision != "" {
@@ -541,16 +539,18 @@ func updateBody(r *explore.Run, rep *report.R) {
 	switch {
 	case p != nil:
 		f.add("panic/webhook-update", "the webhook panicked: %v", p)
+	case v.Allowed && len(forbidden) > 0 && len(f.list) > 0:
+		// consequence of the ValidateUpdate failure above (the webhook calls it)
+		f.list[0].msg += "; the admission webhook allowed the UPDATE as well"
 	case v.Allowed && len(forbidden) > 0:
-		f.add("webhook/"+changeSig(forbidden[0]), "UPDATE %s -> %s changes %v and was allowed by the webhook", variants[oi].name, variants[ni].name, forbidden)
+		f.add("webhook/"+changeSig(forbidden[0]), "UPDATE %s -> %s changes %v; ValidateUpdate reports it but the webhook allowed the request", variants[oi].name, variants[ni].name, forbidden)
 	case v.Allowed && collision != "":
 		f.add("webhook/update/claimnames/collision-"+collision+"/accepted", "UPDATE to an XRD whose claim names repeat the composite's %s was allowed", collision)
 	case !v.Allowed && permitted:
 		f.add("webhook/update/permitted-change/rejected", "UPDATE %s -> %s (versions/schema/added claim names only) was denied: %s", variants[oi].name, variants[ni].name, v.Message)
 	}
-	if len(f.list) > 0 {
-		sig, msg := f.first()
-		r.Failf(sig, "%s", msg)
+	if f.raise(r, "admission/update") {
+		return
 	}
 	nt := ""
 	if len(forbidden) > 0 || collision != "" {
